@@ -145,6 +145,18 @@ class NativeBuilder:
         w.wcs.crpix = [50.0, 60.0]
         c, s = np.cos(rot), np.sin(rot)
         w.wcs.cd = np.array([[-scale * c, scale * s], [scale * s, scale * c]])
+        # C07-style contracts describe the WCS by its local scale `s` (rad / pixel) and the direction `nu` of north at a centre:
+        # build the tangent-plane WCS that has exactly those there (reference point = that centre), so the counterexample replays
+        if 's' in self.model and 'nu' in self.model:
+            for cname in ('r.center', 'c', 'self.center'):
+                if cname + '.lon' in self.model:
+                    lon0, lat0 = np.degrees(float(self._get(cname + '.lon', 0.0))), np.degrees(float(self._get(cname + '.lat', 0.0)))
+                    sv, nu = float(self._get('s', 1e-5)), float(self._get('nu', 1.0))
+                    if sv > 0 and abs(lat0) < 89.9:
+                        sd = np.degrees(sv)
+                        w.wcs.crval = [lon0 % 360.0, lat0]
+                        w.wcs.cd = sd * np.array([[-np.sin(nu), np.cos(nu)], [np.cos(nu), np.sin(nu)]])
+                    break
         if frame == 'fk5':
             w.wcs.radesys = 'FK5'
             w.wcs.equinox = 2000.0
